@@ -51,6 +51,8 @@ func init() {
 }
 
 func init() {
+	harnesses["corec"] = &Harness{Name: "corec", Pkg: "verifrt/h/hcorec", Race: true,
+		Rewrites: []Rewrite{{Dir: "core", Shim: true}}}
 	harnesses["sio"] = &Harness{Name: "sio", Pkg: "sio", InPkgSrc: "harness/inpkg/sio", Race: true,
 		Rewrites: []Rewrite{{Dir: "sio", Shim: true, VRange: true}, {Dir: "crew", Shim: true}}}
 	harnesses["mcrew"] = &Harness{Name: "mcrew", Pkg: "cmd/mcrew", InPkgSrc: "harness/inpkg/mcrew", Race: true,
@@ -74,6 +76,12 @@ func init() {
 }
 
 var checks = map[string]*Check{
+	"C12": {ID: "C12", Parts: []Part{{Harness: "corec", Func: "C12", Race: true}}, Category: "model_checking", QuickDeadline: 240, ThoroughDeadline: 1500, GoMaxProcs: 1,
+		Engine: "E2", DesignRef: "6/C12",
+		Technique: "stateless schedule exploration of concurrent walks over one compiled spec (yield points inside native and ECMAScript actions/guards, shimmed atomics of UpdatableSpec) with per-walk solo-equivalence oracle, plus a ThreadSanitizer pass on the explored schedules",
+		LevelText: "Every interleaving (within the deviation bound) of 2-3 concurrent walks of distinct machines over one compiled specification, and of walks with concurrent SetSpec calls on an UpdatableSpec, is executed on the real code; each walk must equal its solo result under exactly one version (never a version older than a completed SetSpec), the spec's deep snapshot must not change, and ThreadSanitizer must stay silent.",
+		LevelNote: "Trusted: rt/sched; yield points are placed in actions and guards (the engine code between them runs atomically in a schedule); ThreadSanitizer covers the accesses in between. goja internals are not scheduling points.",
+		Assumptions: commonAssumptions},
 	"C17": {ID: "C17", Parts: []Part{{Harness: "mcrew", Func: "C17mcrew", Race: true}, {Harness: "sio", Func: "C17sio", Race: true}}, Category: "model_checking", QuickDeadline: 240, ThoroughDeadline: 1500, GoMaxProcs: 1,
 		Engine: "E2", DesignRef: "6/C17",
 		Technique: "stateless schedule exploration (controlled cooperative scheduler over shimmed sync/time, virtual clock, DFS with deviation bounding) of the real timer implementations, with a per-id monitor automaton on every execution",
